@@ -83,6 +83,11 @@ def judge(ctx_v, evs, root, cmd, tag, archive, readonly):
         if readonly:
             ctx_v('C10-readonly-command-mutates:%s:%s' % (cmd.split('=')[0], e.call), "'lha %s' performed %r" % (cmd, e))
             continue
+        if e.denied == 2:
+            # an attempt the kernel would have refused whatever the target (unlink of a directory, exclusive creation of an existing
+            # name, empty path): it could not have touched anything, so it is counted, not judged
+            stats['no_effect_attempts'] = stats.get('no_effect_attempts', 0) + 1
+            continue
         if e.denied or not (e.resolved == rb or (e.resolved or b'').startswith(rb + b'/')):
             ctx_v('C10-escape:%s:%s' % (e.call, tag), "'lha %s': %s on %r resolved to %r, outside the extraction root" % (cmd, e.call, e.arg, e.resolved))
             continue
@@ -212,6 +217,34 @@ def run(ctx):
     for i in range(120 if ctx.tier == 'quick' else 3000):
         seq = [rnd.choice(names) for _ in range(rnd.randrange(1, 6))]
         add('readonly', seq, rnd.choice(READONLY_CMDS))
+    # hostile name strings through the real tool: every string over {'.', '/', '\\', 0xFF, NUL, 'a'} up to a length bound, in the
+    # path extended header (followed by an ordinary file name), in the file-name extended header, and as level-0/1 in-header name
+    # (C11 checks what the library *returns* for these; here the tool's own joining of path and name is what is observed)
+    alpha = [b'.', b'/', b'\\', b'\xff', b'\x00', b'a']
+    maxn = 3 if ctx.tier == 'quick' else 5
+    strings = []
+    for L in range(1, maxn + 1):
+        strings += [b''.join(t) for t in itertools.product(alpha, repeat=L)]
+    if ctx.tier == 'quick':
+        strings += [b''.join(rnd.choice(alpha) for _ in range(rnd.choice([4, 5, 6]))) for _ in range(150)]
+    for si, st in enumerate(strings):
+        for ch in range(3):
+            lvl = (2, 3, 1)[(si + ch) % 3]
+            if ch == 0:
+                mem = raw_file(lvl, name=b'n', path=st, inhdr=b'x')
+                if lvl == 1:
+                    mem.m['exts'] = [(2, st), (1, b'n')]
+            elif ch == 1:
+                mem = raw_file(lvl, name=st, inhdr=b'x')
+                if lvl == 1:
+                    mem.m['exts'] = [(1, st)]
+            else:
+                if len(st) > 200:
+                    continue
+                mem = raw_file(si % 2, inhdr=st)
+            n[0] += 1
+            jobs.append((n[0], 'name-enum:%s' % ('ext-path', 'ext-filename', 'inhdr-name')[ch], arc.archive([mem]), ('xf', 'xfw=sub', 'xq')[si % 3], None, base, exe, so, []))
+    ctx.cov['hostile_name_strings_enumerated'] = len(strings)
     # pre-existing symlinks at final components
     pres = [[('a', 'CANARY/precious.txt')], [('a', 'CANARY')], [('a', 'dangling-target')], [('d/f', 'CANARY/precious.txt')],
             [('d/f', '../../nowhere')], [('x', 'CANARY/sub/ro.txt')]]
@@ -238,6 +271,7 @@ def run(ctx):
             ctx.count('symlink_events', stats['symlinks'])
             ctx.count('dangerous_symlinks_created', stats['dangerous'])
             ctx.count('dangerous_symlink_attempts', stats['dangerous_attempts'])
+            ctx.count('attempts_outside_root_that_could_have_no_effect', stats.get('no_effect_attempts', 0))
             ctx.hist('runs_by_command', cmd.split('=')[0])
             ctx.hist('runs_by_class', tag.split(':')[0])
             for k, w in viol:
